@@ -22,6 +22,17 @@ def make_replay(prop, failure, seed):
         'failing_input': None,
     }
     found = False
+    if failure.get('engine') == 'kani':
+        try:
+            inp = kani_playback(failure)
+            if inp:
+                doc['failing_input'] = inp
+                doc['reexecute'] = inp.get('cmd')
+                found = inp.get('reproduced_on_real_code', False)
+        except Exception as e:
+            doc['replay_error'] = str(e)
+        write_json(path, doc)
+        return path, found
     try:
         import replay_grid
         inp = replay_grid.search(prop, failure, seed)
@@ -35,6 +46,43 @@ def make_replay(prop, failure, seed):
         doc['replay_error'] = str(e)
     write_json(path, doc)
     return path, found
+
+
+def kani_playback(failure):
+    """Kani's counterexample for a failed harness, re-executed natively against the real code:
+    `--concrete-playback=inplace` writes a #[test] with the concrete values into a scratch copy of the
+    harness crate, `cargo kani playback` compiles it (path dependency on /repo) and runs it."""
+    import shutil
+    from common import run, BUILD
+    m = re.match(r'kani_(\w+?):(\w+)::(\w+)$', failure['obligation'])
+    if not m:
+        return None
+    cfg, fam, h = m.groups()
+    src = os.path.join(BUILD, 'kani', cfg)
+    dst = os.path.join(BUILD, 'kani', cfg + '-playback')
+    shutil.rmtree(dst, ignore_errors=True)
+    shutil.copytree(src, dst)
+    tgt = os.path.join(BUILD, 'kani-target', cfg + '-playback')
+    rc, out, err, _ = run(['cargo', 'kani', '--target-dir', tgt, '--harness', f'{fam}::{h}', '-Z', 'concrete-playback',
+                           '--concrete-playback=inplace', '--output-format', 'terse'], cwd=dst, timeout=900)
+    lib = open(os.path.join(dst, 'src', 'lib.rs')).read()
+    tests = re.findall(r'((?:\s*///[^\n]*\n)+)\s*#\[test\]\s*fn (kani_concrete_playback_%s_\d+)\(\) \{(.*?)\n\s*\}\n' % re.escape(h), lib, re.S)
+    tests = [t for t in tests if 'Check for `cover`' not in t[0]]
+    if not tests:
+        return {'harness': f'{fam}::{h}', 'kani_output': (out + err)[-1500:], 'reproduced_on_real_code': False,
+                'note': 'Kani produced no concrete values for the failed check'}
+    doc, name, body = tests[0]
+    rc2, out2, err2, _ = run(['cargo', 'kani', 'playback', '-Z', 'concrete-playback', '--', name], cwd=dst, timeout=900,
+                             env={'CARGO_TARGET_DIR': tgt + '-native'})
+    txt = out2 + err2
+    failed = 'panicked at' in txt or 'test result: FAILED' in txt
+    vals = re.findall(r'//\s*([^\n]+)\n\s*vec!\[([^\]]*)\]', body)
+    return {'harness': f'{fam}::{h}', 'check': ' '.join(l.strip(' /') for l in doc.strip().split('\n'))[:400],
+            'concrete_values': [{'as_printed_by_kani': a.strip(), 'bytes': b.strip()} for a, b in vals][:40],
+            'native_run': '\n'.join(l for l in txt.split('\n') if 'panicked' in l or 'assertion' in l or 'test result' in l or 'Can\'t' in l)[:1500],
+            'reproduced_on_real_code': failed,
+            'what_fails': 'the harness assertion fails natively on the compiled /repo code with these inputs' if failed else 'native run did not fail',
+            'cmd': f'(cd {dst} && CARGO_TARGET_DIR={tgt}-native cargo kani playback -Z concrete-playback -- {name})'}
 
 
 def known_still_fails(kf):
